@@ -19,6 +19,10 @@ var checks = map[string]func(*ctx){
 	"C01": runC01,
 	"C02": runC02,
 	"C03": runC03,
+	"C05": runC05,
+	"C07": runC07,
+	"C09": runC09,
+	"C10": runC10,
 	"C12": runC12,
 	"C13": runC13,
 	"C14": runC14,
